@@ -261,6 +261,8 @@ def _d2(chk, fb, fns):
                 for t, tr, nd in facts:
                     if t in ("%s.empty()" % ctext,) and tr is False:
                         return True
+                    if t in ("%s.size()" % ctext, "%s.length()" % ctext) and tr is True:
+                        return True       # 'size() == 0' / 'size() != 0' reach the CFG layer as the truthiness of size()
                     if t in ("(%s.size() == 0)" % ctext, "(%s.length() == 0)" % ctext) and tr is False:
                         return True
                     if t in ("(%s.size() > 0)" % ctext, "(%s.size() != 0)" % ctext, "(%s.size() >= %d)" % (ctext, c)) and tr is True:
@@ -285,8 +287,89 @@ def _d2(chk, fb, fns):
                 chk.refuted("D2", f.key, "underflow:%s.size()-%d" % (ctext, c), f.loc(e), "'%s[%s.size() - %d]' with no emptiness guard on a caller-supplied container" % (ctext, ctext, c),
                             witness={"input": "an empty %s" % ctext})
             else:
-                chk.unknown("D2", f.key, "underflow:%s.size()-%d" % (ctext, c), f.loc(e), "no local guard; emptiness depends on an invariant established elsewhere")
+                empty_path = _still_empty_path(f, cfg, cont, e, est) if role == "index" else None
+                if empty_path:
+                    chk.refuted("D2", f.key, "underflow:%s.size()-%d" % (ctext, c), f.loc(e),
+                                "'%s[%s.size() - %d]' is reached on a path on which the local container '%s' (declared empty at %s) has received no element and no emptiness test was passed: the index wraps and the access is far out of range" % (
+                                    ctext, ctext, c, ctext, empty_path[1]),
+                                witness={"blocks": empty_path[0], "input": "text that takes this branch before any element was stored (e.g. a leading separator token)"})
+                else:
+                    chk.unknown("D2", f.key, "underflow:%s.size()-%d" % (ctext, c), f.loc(e), "no local guard; emptiness depends on an invariant established elsewhere")
     chk.floor("D2", "'size() - c' bounds/indices", n, 3)
+
+
+def _still_empty_path(f, cfg, cont, site, est):
+    """for a local container declared without elements: a feasible CFG path from its declaration to `site` that passes no
+    statement able to put an element into it (any non-const use of the local) and no edge establishing non-emptiness;
+    (blocks, location of the declaration) or None.  A path that enters a loop whose body fills the container and leaves it
+    through the loop test is not used: whether such a loop runs at least once is a value fact"""
+    c0 = strip(cont)
+    if c0["k"] != "DeclRefExpr" or c0["decl"]["kind"] != "local":
+        return None
+    did = c0["decl"]["id"]
+    decl = None
+    for dn in f.all_nodes():
+        if dn["k"] == "DeclStmt":
+            for d in dn["decls"]:
+                if d["id"] == did:
+                    decl = (dn, d)
+    if decl is None:
+        return None
+    init = strip(decl[1].get("init")) if decl[1].get("init") is not None else None
+    if init is not None and not (init["k"] == "CXXConstructExpr" and not [a for a in f.args(init) if render(a) != "<default>"]):
+        return None
+    fills = set()
+    for n in f.all_nodes():
+        if is_call(n):
+            touched = False
+            if "obj" in n:
+                o = strip(f.obj(n))
+                if o["k"] == "DeclRefExpr" and o["decl"]["id"] == did and not n["callee"].get("const"):
+                    touched = n["callee"]["name"] not in ("operator[]", "at", "back", "front", "begin", "end", "size", "empty", "clear", "pop_back", "erase")
+            pt = n["callee"].get("ptypes", [])
+            for i, a in enumerate(f.args(n)):
+                ty = pt[i] if i < len(pt) else ""
+                if ty.endswith("&") and not ty.startswith("const ") and any(x["k"] == "DeclRefExpr" and x["decl"]["id"] == did for x in walk(a)):
+                    touched = True
+            if touched:
+                fills.add(cfg.stmt_block(n))
+    # any other mention that could alias it (address taken, reference bound): give up
+    for n in f.all_nodes():
+        if n["k"] == "UnaryOperator" and n["op"] == "&" and any(x["k"] == "DeclRefExpr" and x["decl"]["id"] == did for x in walk(n)):
+            return None
+        if n["k"] == "DeclStmt":
+            for d in n["decls"]:
+                if "&" in (d.get("ty") or "") and d.get("init") is not None and any(x["k"] == "DeclRefExpr" and x["decl"]["id"] == did for x in walk(d["init"])):
+                    return None
+    loops = e1.natural_loops(cfg)
+    filling_heads = {h for h, body in loops.items() if body & fills}
+    start, target = cfg.stmt_block(decl[0]), cfg.stmt_block(site)
+    if start is None or target is None or target in fills:
+        return None
+    prev = {start: None}
+    q = [start]
+    while q:
+        x = q.pop(0)
+        if x == target:
+            path = []
+            while x is not None:
+                path.append(x)
+                x = prev[x]
+            path.reverse()
+            if e1._path_feasible(f, cfg, path):
+                return path, f.loc(decl[0])
+            return None
+        for s_ in cfg.succ[x]:
+            if s_ in prev or s_ in fills:
+                continue
+            if est(e1.edge_facts(cfg, x, s_)):
+                continue
+            # leaving a filling loop through its test without having entered the body
+            if x in filling_heads and s_ not in loops[x] and target not in loops[x]:
+                continue
+            prev[s_] = x
+            q.append(s_)
+    return None
 
 
 def _loop_indexes(f, lp, ctext):
@@ -555,6 +638,147 @@ def instantiations(fb, headers):
     return ""
 
 
+def _d6(chk, fb, fns):
+    """look-ahead: a counted loop 'for (i = ..; i < B; ..)' whose body advances i a second time and then indexes with i, without
+    testing i against B again.  The extra advance is triggered by the content of the current element (caller-supplied), so the last
+    element can trigger it: the index is then B"""
+    n = 0
+    for f in fns:
+        cfg = f.cfg
+        if cfg is None:
+            continue
+        loops = e1.natural_loops(cfg)
+        for lp in [x for x in f.all_nodes() if x["k"] in ("ForStmt", "WhileStmt") and x.get("cond") is not None and x.get("body") is not None]:
+            cond = strip(f.nodes[lp["cond"]])
+            if cond["k"] != "BinaryOperator" or cond["op"] not in ("<", "!="):
+                continue
+            iv, bound = strip(kids(cond)[0]), strip(kids(cond)[1])
+            if iv["k"] != "DeclRefExpr" or iv["decl"]["kind"] != "local":
+                continue
+            vid, vname, B = iv["decl"]["id"], iv["decl"]["name"], render(bound)
+            m_size = re.match(r"^(.*)\.(size|length)\(\)$", B)
+            if not m_size:
+                continue
+            body = f.nodes[lp["body"]]
+            head = cfg.stmt_block(f.nodes[lp["cond"]])
+            lbody = loops.get(head, set())
+            extra = [x for x in walk(body) if (x["k"] == "UnaryOperator" and x["op"] == "++" and strip(kids(x)[0])["k"] == "DeclRefExpr" and strip(kids(x)[0])["decl"]["id"] == vid)
+                     or (x["k"] == "CompoundAssignOperator" and x["op"] == "+=" and strip(kids(x)[0])["k"] == "DeclRefExpr" and strip(kids(x)[0])["decl"]["id"] == vid)]
+            if not extra:
+                continue
+            # containers whose size is the bound: the bounded one and locals constructed with that size
+            sized = {m_size.group(1)}
+            for dn in f.all_nodes():
+                if dn["k"] == "DeclStmt":
+                    for d in dn["decls"]:
+                        i0 = strip(d["init"]) if d.get("init") is not None else None
+                        if i0 is not None and i0["k"] == "CXXConstructExpr" and [render(a) for a in f.args(i0) if render(a) != "<default>"][:1] == [B]:
+                            sized.add(d["name"])
+            for m in extra:
+                mb = cfg.stmt_block(m)
+                uses = []
+                for u in walk(body):
+                    if is_call(u) and u["callee"]["name"] in ("operator[]", "at") and "obj" in u and f.args(u):
+                        ix = strip(f.args(u)[0])
+                        if ix["k"] == "DeclRefExpr" and ix["decl"]["id"] == vid and render(f.obj(u)) in sized and u["callee"]["name"] == "operator[]":
+                            uses.append(u)
+                for u in uses:
+                    ub = cfg.stmt_block(u)
+                    if mb is None or ub is None:
+                        continue
+
+                    def retest(facts, vname=vname, B=B):
+                        for t, tr, nd in facts:
+                            if t in ("(%s < %s)" % (vname, B), "(%s != %s)" % (vname, B)) and tr:
+                                return True
+                            if t in ("(%s >= %s)" % (vname, B), "(%s == %s)" % (vname, B), "(%s == %s)" % (B, vname), "(%s <= %s)" % (B, vname)) and tr is False:
+                                return True
+                        return False
+                    # a path from the advance to the use inside one iteration (not through the loop head) with no re-test
+                    if mb == ub:
+                        reach = e1.earlier_in_block(cfg, m, u)
+                        path = [mb]
+                    else:
+                        ok_, path = e1.guarded_by(cfg, ub, retest, entry=mb, through={head} | (set(cfg.blocks) - lbody))
+                        reach = not ok_
+                    n += 1
+                    if not reach:
+                        chk.proved("D6", f.key, "lookahead:%s[%s]" % (render(f.obj(u)), vname), f.loc(u), "after the extra advance (%s) '%s' is tested against %s before it indexes" % (f.loc(m), vname, B))
+                        continue
+                    # was the advance itself preceded by 'i + 1 < B'?
+                    pre, _ = e1.guarded_by(cfg, mb, lambda facts: any(t in ("((%s + 1) < %s)" % (vname, B), "((%s + 1) != %s)" % (vname, B)) and tr for t, tr, _ in facts))
+                    con = "lookahead:%s[%s]" % (render(f.obj(u)), vname)
+                    if pre:
+                        chk.proved("D6", f.key, con, f.loc(u), "the extra advance of '%s' is dominated by '%s + 1 < %s'" % (vname, vname, B))
+                    else:
+                        chk.refuted("D6", f.key, con, f.loc(u),
+                                    "'%s' runs over 0..%s; the body advances it again (%s) and then reads %s[%s] without testing it against %s: when the last element triggers the advance the index equals the size" % (
+                                        vname, B, f.loc(m), render(f.obj(u)), vname, B),
+                                    witness={"input": "a last element that triggers the look-ahead (e.g. a final line ending with the continuation character)"})
+    return n
+
+
+def _d7(chk, fb, fns):
+    """first-element access on the token list of a tokenizer: a string made of separators only (or an empty one) gives no token at
+    all, so '*tok.getTokens().begin()', 'getTokens().begin() + k', front()/back()/[k] need a dominating test that a token exists"""
+    n = 0
+    for f in fns:
+        cfg = f.cfg
+        for u in f.all_nodes():
+            cont, what = None, None
+            if u["k"] == "UnaryOperator" and u["op"] == "*" and not u.get("postfix"):
+                x = strip(kids(u)[0])
+                if is_call(x) and x["callee"]["name"] == "begin" and "obj" in x:
+                    cont, what = f.obj(x), "*%s.begin()" % render(f.obj(x))
+                elif x["k"] == "BinaryOperator" and x["op"] == "+" and is_call(strip(kids(x)[0])) and strip(kids(x)[0])["callee"]["name"] == "begin" and "obj" in strip(kids(x)[0]):
+                    cont, what = f.obj(strip(kids(x)[0])), "*(%s.begin() + %s)" % (render(f.obj(strip(kids(x)[0]))), render(kids(x)[1]))
+            elif is_call(u) and u["callee"]["name"] == "operator*" and ("obj" in u or f.args(u)):
+                x = strip(f.obj(u)) if "obj" in u else strip(f.args(u)[0])
+                if is_call(x) and x["callee"]["name"] == "begin" and "obj" in x:
+                    cont, what = f.obj(x), "*%s.begin()" % render(f.obj(x))
+            elif is_call(u) and u["callee"]["name"] in ("front", "back") and "obj" in u:
+                cont, what = f.obj(u), "%s.%s()" % (render(f.obj(u)), u["callee"]["name"])
+            elif is_call(u) and u.get("op") == "+" and f.args(u) and len(f.args(u)) == 2 and is_call(strip(f.args(u)[0])) and strip(f.args(u)[0])["callee"]["name"] == "begin" and "obj" in strip(f.args(u)[0]):
+                k_ = strip(f.args(u)[1])
+                if k_["k"] == "IntegerLiteral" and k_["val"] >= 1:
+                    cont, what = f.obj(strip(f.args(u)[0])), "%s.begin() + %s" % (render(f.obj(strip(f.args(u)[0]))), k_["val"])
+            if cont is None:
+                continue
+            raw = render(cont)
+            reftys = {d["id"] for dn in f.all_nodes() if dn["k"] == "DeclStmt" for d in dn["decls"] if (d.get("ty") or "").endswith("&")}
+            ct = render(cont, {k_: v_ for k_, v_ in local_inits(f).items() if k_ in reftys})       # a reference bound to the token list stands for it
+            m = re.match(r"^(\w+)\.getTokens\(\)$", ct)
+            if not m:
+                continue
+            tok = m.group(1)
+            n += 1
+
+            def est(facts, tok=tok, ct=ct, raw=raw):
+                for t, tr, nd in facts:
+                    if raw != ct and t.startswith(raw + "."):
+                        t = ct + t[len(raw):]
+                    elif raw != ct and t.startswith("(" + raw + "."):
+                        t = "(" + ct + t[len(raw) + 1:]
+                    if t in ("%s.hasMoreToken()" % tok, "%s.numberOfRemainingTokens()" % tok, "%s.size()" % ct) and tr is True:
+                        return True
+                    if t == "%s.empty()" % ct and tr is False:
+                        return True
+                    if re.match(r"^\((%s\.numberOfRemainingTokens\(\)|%s\.size\(\)) (>|>=|!=) \d+\)$" % (re.escape(tok), re.escape(ct)), t) and tr is True and not t.endswith(">= 0)"):
+                        return True
+                    if re.match(r"^\((%s\.numberOfRemainingTokens\(\)|%s\.size\(\)) (==|<|<=) \d+\)$" % (re.escape(tok), re.escape(ct)), t) and tr is False and not t.endswith("< 0)"):
+                        return True
+                return False
+            ok, path = e1.guarded_by(cfg, cfg.stmt_block(u), est)
+            con = "first-token:" + tok
+            if ok:
+                chk.proved("D7", f.key, con, f.loc(u), "'%s' is dominated by a test that a token exists" % what)
+            else:
+                chk.refuted("D7", f.key, con, f.loc(u),
+                            "'%s' with no test that the tokenizer found a token: a text made of separators only gives an empty token list and the iterator is not dereferenceable" % what,
+                            witness={"input": "a line that consists of the separator only", "blocks": path})
+    return n
+
+
 def run(chk, fb, tier):
     chk.rule("D1", "a std::string search result on caller-supplied text is compared with npos (or is find+1) on every path before it is used as substr/erase/insert position, index, or iterator offset")
     chk.rule("D2", "'c.size() - k' (unsigned) as loop bound/index on a caller-supplied or possibly-empty member container needs a dominating non-emptiness guard")
@@ -569,5 +793,9 @@ def run(chk, fb, tier):
     _d3(chk, fb, fns)
     _d4(chk, fb, fns)
     _d5(chk, fb, fns)
+    chk.rule("D6", "a counted loop over 0..X.size() that advances its counter a second time inside the body re-tests it against the bound (or tests counter + 1 beforehand) before indexing a container of that size with it")
+    chk.floor("D6", "look-ahead sites", _d6(chk, fb, fns), 1)
+    chk.rule("D7", "'*tok.getTokens().begin()', 'tok.getTokens().begin() + k', front()/back() on the token list of a tokenizer are dominated by a test that a token exists")
+    chk.floor("D7", "first-element accesses on token lists", _d7(chk, fb, fns), 1)
     chk.assume("std::string::operator[](size()) and substr(size()) are defined; a count argument larger than the remainder is clamped")
     chk.assume("members listed in MAY_BE_EMPTY_MEMBERS can be left empty by a public constructor (read once by hand)")
